@@ -69,6 +69,9 @@ def check(run):
     with R.as_rule('C02.timers'):
         _C15.ping(R)
         _C15.close(R, RID='C02.timers', rearm=False)
+        _C15.params(R)           # every housekeeping pass - after a read or after an event of a read - runs with run()'s own
+                                 # settings: a pass that is told `ping_rate=0` while a read is dispatched moves the ping
+                                 # behind the reactions to the rest of that read (write order depends on the cuts)
     p1(R)
     C10.limit(R, RID='C02.P1b')
     C05.track(R, RID='C02.P2')
